@@ -16,6 +16,12 @@ module N =
   | N0 -> N0
   | Npos p -> Npos (Coq_xO p)
 
+  (** val pred : coq_N -> coq_N **)
+
+  let pred = function
+  | N0 -> N0
+  | Npos p -> Pos.pred_N p
+
   (** val add : coq_N -> coq_N -> coq_N **)
 
   let add n m =
@@ -122,6 +128,31 @@ module N =
   let modulo a b =
     snd (div_eucl a b)
 
+  (** val coq_land : coq_N -> coq_N -> coq_N **)
+
+  let coq_land n m =
+    match n with
+    | N0 -> N0
+    | Npos p -> (match m with
+                 | N0 -> N0
+                 | Npos q -> Pos.coq_land p q)
+
+  (** val coq_lxor : coq_N -> coq_N -> coq_N **)
+
+  let coq_lxor n m =
+    match n with
+    | N0 -> m
+    | Npos p -> (match m with
+                 | N0 -> n
+                 | Npos q -> Pos.coq_lxor p q)
+
+  (** val shiftl : coq_N -> coq_N -> coq_N **)
+
+  let shiftl a n =
+    match a with
+    | N0 -> N0
+    | Npos a0 -> Npos (Pos.shiftl a0 n)
+
   (** val to_nat : coq_N -> nat **)
 
   let to_nat = function
@@ -133,4 +164,14 @@ module N =
   let of_nat = function
   | O -> N0
   | S n' -> Npos (Pos.of_succ_nat n')
+
+  (** val ones : coq_N -> coq_N **)
+
+  let ones n =
+    pred (shiftl (Npos Coq_xH) n)
+
+  (** val lnot : coq_N -> coq_N -> coq_N **)
+
+  let lnot a n =
+    coq_lxor a (ones n)
  end
